@@ -16,12 +16,13 @@ TTeardown == IsEv("teardown") /\ Teardown
 TInject == IsEv("inject") /\ Inject(Rec.n)
 THandled == IsEv("handled") /\ Handled(Rec.n)
 TQuiet == IsEv("quiet") /\ Quiet
+TSettled == IsEv("settled") /\ Settled
 TEnd == IsEv("end") /\ End
 \* the child process that ran the preceding runs exited normally
 TChildExit == IsEv("childexit") /\ Rec.code = 0 /\ UNCHANGED hvars
 \* "died", "stalled", "hung" are never accepted
 
 TNext == TReset \/ TCall \/ TRet \/ TPeerGone \/ TTeardown \/ TInject \/ THandled
-         \/ TQuiet \/ TEnd \/ TChildExit
+         \/ TQuiet \/ TSettled \/ TEnd \/ TChildExit
 TSpec == TInit /\ [][TNext]_tvars
 =============================================================================
